@@ -326,6 +326,114 @@ class Crate:
 
 MAX_STEPS = 6000000
 
+_BaseParser = rsfront.Parser
+
+class Parser2(_BaseParser):
+    """rsfront's parser + `match` over integer / bool literal patterns (alternatives `a | b`, ranges, `_`, a binding), desugared
+    into `{ let m = scrutinee; if m == p1 { e1 } else if … else { en } }`; a match without a catch-all arm ends in
+    `unreachable!()`.  Installed as rsfront.Parser only while symexec parses a body (the translator never sees it)."""
+    _n = [0]
+    def parse_stmt(self):
+        if self.peek() == "match":
+            return ("exprnosemi", self.parse_match())
+        return _BaseParser.parse_stmt(self)
+    def parse_primary(self, nostruct):
+        if self.peek() == "match":
+            return self.parse_match()
+        return _BaseParser.parse_primary(self, nostruct)
+    def parse_match(self):
+        self.eat("match")
+        scrut = self.parse_expr(nostruct=True)
+        if self.peek() != "{":
+            raise Unsupported("match: body")
+        c = rsfront.match_close(self.t, self.i)
+        toks = self.t[self.i + 1:c]
+        self.i = c + 1
+        Parser2._n[0] += 1
+        var = f"__match{Parser2._n[0]}"
+        mv = ("path", [var])
+        arms, i = [], 0
+        while i < len(toks):
+            j, depth = i, 0
+            while not (toks[j][1] == "=>" and depth == 0):
+                if toks[j][0] == "p" and toks[j][1] in rsfront.OPEN:
+                    depth += 1
+                elif toks[j][0] == "p" and toks[j][1] in (")", "]", "}"):
+                    depth -= 1
+                j += 1
+                if j >= len(toks):
+                    raise Unsupported("match: arm")
+            pat = toks[i:j]
+            k = j + 1
+            if toks[k][1] == "{":
+                e_end = rsfront.match_close(toks, k)
+                body = Parser2(toks[k:e_end + 1], self.macros).parse_expr_all()
+                k = e_end + 1
+                if k < len(toks) and toks[k][1] == ",":
+                    k += 1
+            else:
+                e, depth = k, 0
+                while e < len(toks) and not (toks[e][1] == "," and depth == 0):
+                    if toks[e][0] == "p" and toks[e][1] in rsfront.OPEN:
+                        depth += 1
+                    elif toks[e][0] == "p" and toks[e][1] in (")", "]", "}"):
+                        depth -= 1
+                    e += 1
+                body = Parser2(toks[k:e], self.macros).parse_expr_all()
+                k = e + 1
+            arms.append((pat, body))
+            i = k
+        def cond(pat):
+            if any(t[1] == "if" for t in pat):
+                raise Unsupported("match: guard")
+            alts = rsfront.split_top(pat, "|")
+            cs = []
+            for a in alts:
+                txt = [t[1] for t in a]
+                if txt == ["_"]:
+                    return None, None
+                if len(a) == 1 and a[0][0] == "id" and a[0][1] not in ("true", "false") and a[0][1][:1].islower():
+                    return None, a[0][1]
+                if "..=" in txt or ".." in txt:
+                    op = "..=" if "..=" in txt else ".."
+                    q = txt.index(op)
+                    lo, hi = a[:q], a[q + 1:]
+                    if not lo or not hi:
+                        raise Unsupported("match: half-open range pattern")
+                    lo, hi = Parser2(lo, self.macros).parse_expr_all(), Parser2(hi, self.macros).parse_expr_all()
+                    cs.append(("bin", "&&", ("bin", ">=", mv, lo), ("bin", "<=" if op == "..=" else "<", mv, hi)))
+                    continue
+                if not all(t[0] in ("num", "id") or t[1] in ("-", "::") for t in a):
+                    raise Unsupported("match: pattern")
+                cs.append(("bin", "==", mv, Parser2(a, self.macros).parse_expr_all()))
+            r = cs[0]
+            for x in cs[1:]:
+                r = ("bin", "||", r, x)
+            return r, None
+        chain = ([("expr", ("macro", "unreachable", []))], None)
+        closed = False
+        built = []
+        for pat, body in arms:
+            c_, bind = cond(pat)
+            built.append((c_, bind, body))
+        for c_, bind, body in reversed(built):
+            blk = ([("let", ("name", bind), False, None, mv)], body) if bind else ([], body)
+            if c_ is None:
+                chain = blk
+            else:
+                chain = ([], ("if", c_, blk, chain))
+        stmts = [("let", ("name", var), False, None, scrut)] + chain[0]
+        return ("block", stmts, chain[1])
+
+def parse_body2(toks, macros):
+    old = rsfront.Parser
+    rsfront.Parser = Parser2
+    assert old is not Parser2 or True
+    try:
+        return Parser2(toks, macros).parse_block_body()
+    finally:
+        rsfront.Parser = old
+
 class Interp:
     def __init__(self, crate, symbolic=False, deadline=None):
         self.c, self.symbolic = crate, symbolic
@@ -659,7 +767,7 @@ class Interp:
     # ------------------------------------------------------------ functions
     def body(self, key, fn, macros):
         if key not in self.bodies:
-            self.bodies[key] = rsfront.parse_body(fn.body, macros)
+            self.bodies[key] = parse_body2(fn.body, macros)
         return self.bodies[key]
 
     @staticmethod
@@ -1196,7 +1304,14 @@ class Interp:
                 elif isinstance(v, View) and rhs[0] == "deref":
                     v = self.materialise(v)
             else:
-                v = self.ev(("bin", op, place, rhs), env, frame)
+                if op in ("<<", ">>"):
+                    r = self.ev(rhs, env, frame)
+                else:
+                    r = self.ev_(rhs, env, frame)
+                cur = self.val(self.ev_(place, env, frame))
+                if isinstance(r, tuple) and r and r[0] == "defer":
+                    r = self.undefer(r, cur if isinstance(cur, I) else None)
+                v = self.binop(op, cur, r, None, chk=frame.get("checked", True))
             self.store(place, v, env, frame)
             return
         if k == "expr":
@@ -1305,6 +1420,12 @@ class Interp:
                 raise Unsupported("unbounded range")
             hi = self.val(self.ev(e[2], env, frame))
             ty = lo.ty if isinstance(lo, I) else (hi.ty if isinstance(hi, I) else None)
+            if self.symbolic and isinstance(lo, I) and isinstance(hi, I) and lo.v is None and lo.w == hi.w and not lo.signed and lo.n + hi.n <= 4 * SIMP_LIMIT:
+                d = simp(hi.e - lo.e)
+                if z3.is_bv_value(d) and lo.bound() + d.as_long() + 1 < (1 << lo.w):
+                    # hi = lo + d without wrap-around: d (+1) iterations lo, lo + 1, …
+                    cnt = d.as_long() + (1 if e[3] else 0)
+                    return Seq(cnt, lambda i: mk(lo.e + z3.BitVecVal(i, lo.w), lo.ty, lo, ub=lo.bound() + i) if i else lo)
             l, h = self.pyint(lo, "range bound"), self.pyint(hi, "range bound") + (1 if e[3] else 0)
             return Seq(max(0, h - l), (lambda i: I(l + i, ty)) if ty else (lambda i: l + i))
         if e[0] == "ref":
@@ -1699,6 +1820,8 @@ class Interp:
                     return sc["const:" + n]
                 if n in self.c.consts:
                     return self.const_value(n, frame)
+                if n in ("w", "Wrapping"):
+                    return ("builtin", "w")          # the tuple-struct constructor used as a function value: `.map(w)`
                 raise Unsupported(f"unknown name {n}")
             if segs[0] in _BASE and segs[1] in ("MAX", "MIN", "BITS"):
                 ty = segs[0]
@@ -1940,6 +2063,11 @@ class Interp:
         return True
 
     def apply_closure(self, c, args, frame):
+        if isinstance(c, tuple) and c and c[0] == "builtin" and c[1] == "w" and len(args) == 1:
+            v = self.val(args[0])
+            if isinstance(v, I):
+                return I(v.v if v.v is not None else v._e, "w:" + base_ty(v.ty), v.n, v.ub)
+            return v
         if not (isinstance(c, tuple) and c and c[0] == "closure"):
             raise Unsupported("call of a non-closure")
         _, params, body, cenv = c
@@ -2237,6 +2365,24 @@ class Interp:
             i, j = self.ev(args[0], env, frame), self.ev(args[1], env, frame)
             x, y = self.a_get(r, i), self.a_get(r, j)
             self.a_set(r, i, y); self.a_set(r, j, x)
+            return None
+        if name == "map" and isinstance(r, (list, BigArr)):
+            f = self.ev(args[0], env, frame)
+            return self.new_array([self.val(self.apply_closure(f, [x], frame)) for x in self.elems(r)])
+        if name in ("rotate_left", "rotate_right"):
+            k = self.pyint(self.ev(args[0], env, frame), "rotation")
+            if k > n:
+                self.may_abort(True)
+                return None
+            xs = self.elems(r)
+            xs = xs[k:] + xs[:k] if name == "rotate_left" else xs[n - k:] + xs[:n - k]
+            for i, x in enumerate(xs):
+                self.a_set(r, i, x)
+            return None
+        if name == "reverse":
+            xs = list(reversed(self.elems(r)))
+            for i, x in enumerate(xs):
+                self.a_set(r, i, x)
             return None
         if name in ("first", "last") :
             raise Unsupported(f"Option-valued .{name}()")
